@@ -421,6 +421,7 @@ let gate_oracle_cmd () =
    record of the task.  Depth-first search over the possible orders, memoised. *)
 type qev = QCall of int * qop | QRet of int * qop | QStart of int | QEnd of int
 
+exception Search_budget
 let queue_accept (evs : qev array) (final : string) : bool =
   let n = Array.length evs in
   let seen : (string, unit) Hashtbl.t = Hashtbl.create 1024 in
@@ -429,6 +430,7 @@ let queue_accept (evs : qev array) (final : string) : bool =
     let key = Marshal.to_string (pos, List.sort compare pending, st, unobs) [] in
     if Hashtbl.mem seen key then false
     else begin
+      if Hashtbl.length seen > 1_500_000 then raise Search_budget;      (* the search is exponential in the number of overlapping client operations *)
       Hashtbl.replace seen key ();
       (* (a) linearise one pending client operation now *)
       List.exists (fun (c, o) -> go pos (List.filter (fun x -> x <> (c, o)) pending) (qstep st o) unobs) pending
@@ -476,7 +478,8 @@ let queue_accept_cmd () =
                | L [A "end"; t] -> QEnd (atom_int t)
                | x -> failwith ("bad queue event " ^ sx_to_string x) in
              (try print_endline (if queue_accept (Array.of_list (List.map conv evs)) final then "ok" else "fail")
-              with e -> print_endline ("fail exception " ^ Printexc.to_string e))
+              with Search_budget -> print_endline "giveup"
+                 | e -> print_endline ("fail exception " ^ Printexc.to_string e))
          | _ -> print_endline "fail unreadable"
        end
      done
